@@ -230,7 +230,7 @@ def run(ck):
         certs.append((f'({q_coq(lo)} < {coq_expr} /\\ {coq_expr} < {q_coq(hi)})', p, desc, expect_true))
 
     # ---------------------------------------------------------------- constants: every precision, every mode
-    plist = (list(range(1, 41)) + [53, 64, 113, 237]) if not thorough else list(range(1, 401))
+    plist = (list(range(1, 33)) + [53, 113]) if not thorough else list(range(1, 401))
     cert_p = {8, 24, 53} if not thorough else {1, 2, 3, 5, 8, 11, 16, 24, 32, 53, 64, 113}
     for cname in COQ_CONST:
         key = f'const_{CONST_ENUM[cname]}_composed' if shapes.get(CONST_ENUM[cname]) == 'composed' else None
@@ -243,7 +243,7 @@ def run(ck):
                 st = compare(cname, f'{cname} under MPFloatContext({p}, {rm})', got, want, key=key, p=p)
                 if st == 'undecided':
                     undecided += 1
-                if p in cert_p and rm in ('RNE', 'RTZ', 'RAZ', 'RTO') and want is not None and not want.is_nar():
+                if p in cert_p and rm in (('RNE', 'RTZ', 'RAZ', 'RTO') if thorough else ('RNE', 'RTZ')) and want is not None and not want.is_nar():
                     # certify the correct cell; if fpy2 disagrees the violation above carries the proof of misrounding
                     add_cert(COQ_CONST[cname], want.as_rational(), d, p, rm, f'{cname} p={p} {rm}')
         # fixed-point and subnormal targets
@@ -279,7 +279,7 @@ def run(ck):
                 if st == 'undecided':
                     undecided += 1
                 if (st == 'ok' and fname in COQ_FN and d['kind'] == 'mpfloat' and p in (3, 8, 24, 53) and d['rm'] in ('RNE', 'RTZ', 'RTP')
-                        and not want.is_nar() and want.inexact and abs(x) <= 16 and ncert < (45 if not thorough else 900)
+                        and not want.is_nar() and want.inexact and abs(x) <= 16 and ncert < (30 if not thorough else 900)
                         and rng.random() < (0.25 if not thorough else 0.6)):
                     add_cert(COQ_FN[fname](q_coq(x)), got.as_rational(), d, p, d['rm'], f'{fname}({x}) p={p} {d["rm"]}')
                     ncert += 1
